@@ -51,7 +51,7 @@ def candidates(rng, tier):
             if k in ("room", "event"):
                 salted.append("%sab%scd" % (sig, salt))
         rnd = ["%s%s:a.org" % (sig, jsongen.rand_string(rng, 6).replace(":", "").replace("\x00", ""))
-               for _ in range(60 if tier == "quick" else 2000)]
+               for _ in range(300 if tier == "quick" else 4000)]
         out[k] = base + salted + rnd
     return out
 
@@ -80,7 +80,7 @@ def text_family(rng, tier):
              "?via=", "&via=x", "?action=join", "&action=chat", "/e/", "/$", "/!", "é", ""]
     for gtxt in good:
         n = len(gtxt)
-        for _ in range(12 if tier == "quick" else 200):
+        for _ in range(100 if tier == "quick" else 600):
             i = rng.randint(0, n)
             e = rng.choice(edits)
             r = rng.random()
